@@ -144,7 +144,8 @@ CLAIMED["C09"] = dict(
           "id of the main part and the reachable header/footer parts), C09_comment_parts (a new comment is listed exactly "
           "once in each of the four lists), C09_new_ids_above_old / C09_new_ids_differ_from_old (a new mark's id differs "
           "from the id of every mark that was there, numeric or not), C09_comment_ids_stay_unique (the comments part keeps "
-          "pairwise distinct ids after any batch), C09_deltext_only_in_del. " + ENGINE_TIE + "Oracle: package validator on the "
+          "pairwise distinct ids after any batch), C09_comment_parts_stay_linked (entry i of comments / commentsExtended / "
+          "commentsIds / commentsExtensible belong together after any batch if they did before), C09_deltext_only_in_del. " + ENGINE_TIE + "Oracle: package validator on the "
           "saved bytes after edit batches, review actions, replies and a second round by another author (zip, "
           "well-formedness, content types, relationship targets, id uniqueness, ISO dates, nesting, comment triples, "
           "auxiliary parts; ids counted over every mark of a part, tracked paragraph marks and rows included)."),
@@ -157,7 +158,7 @@ CLAIMED["C10"] = dict(
           "all four comment lists are a prefix of the result's), C10_new_comments_attributed (every entry of the result is an "
           "existing entry or one written by this run: its author, not resolved, one paragraph, a numeral id above every "
           "numeric id that was there), C10_comment_ids_stay_unique (+ _actions: distinct comment ids stay distinct after "
-          "any batch / review round), C10_anchor_encloses, C10_reply_unknown_skipped. " + ENGINE_TIE +
+          "any batch / review round), C10_comment_parts_stay_linked_actions, C10_anchor_encloses, C10_reply_unknown_skipped. " + ENGINE_TIE +
           "Oracle: every applied commented edit (replacement, insertion, deletion, multi-line, heading) has exactly one "
           "new comment anchored on its own marks and shown with them in the raw view; replies threaded and shown with "
           "their thread; unknown parents skipped."),
@@ -259,7 +260,7 @@ CLAIMED["C07"] = dict(
           "rounds', any author, main part and reachable headers/footers), C07_history_frame (over any history every story "
           "keeps its skeleton and every comment entry stays in place), C07_marks_over_history (every mark at the end is an "
           "original one or carries the author of one of the edit rounds), C07_comments_over_history (every comment entry at "
-          "the end is an original one or was written under a round's author), C07_comment_ids_unique_over_history, "
+          "the end is an original one or was written under a round's author), C07_comment_ids_unique_over_history, C07_comment_parts_linked_over_history, "
           "C07_pending_resolvable, C07_accept_all_clean; the "
           "single-step theorems of C01/C06/C08/C09/C10 hold for every document, hence for every reached one. Model: "
           "Adeu.Doc.runHistory = fold of stepDoc (a new session opened on the saved document of the previous round). "
